@@ -18,6 +18,8 @@ func init() {
 			ruleMapDescriptor(c)
 			rulePresenceFlag(c)
 			ruleBuildGuards(c)
+			ruleDescMarshalers(c)
+			ruleDescRecursion(c)
 		},
 	})
 }
